@@ -184,7 +184,11 @@ def gen_case(rng, kind=None):
     dropna = rng.random() < 0.7
     nan_share = rng.choice([0, 0, 0.05, 0.15, 0.3])
     kind = kind or rng.choice(["plain", "plain", "tied_rates", "sym", "boundary", "dev", "dev", "dev", "dev",
-                               "dev_missing", "dev_invert", "few"])
+                               "dev_missing", "dev_invert", "dev_nan_shift", "few"])
+    if kind == "dev_nan_shift":
+        # missing values behave differently on the dev sample: placements of the NaN bucket tend to fail
+        dropna = True
+        nan_share = rng.choice([0.1, 0.15, 0.3])
     if kind == "few":
         m = rng.randint(1, 2)
     # counts per modality
@@ -214,7 +218,8 @@ def gen_case(rng, kind=None):
     if kind == "sym" and m >= 3:
         ys_mod[-1] = list(ys_mod[0])
         cnt[-1] = cnt[0]
-    ys_nan = targets(n_nan, rng.random()) if n_nan else []
+    nan_base = rng.choice([0.03, 0.97]) if kind == "dev_nan_shift" else rng.random()
+    ys_nan = targets(n_nan, nan_base) if n_nan else []
     vals = modal_values(ftype, m, rng)
     col, y = [], []
     for v, ys in zip(vals, ys_mod):
@@ -269,8 +274,8 @@ def gen_case(rng, kind=None):
         for v, ys in zip(vals, dys):
             dcol += [v] * len(ys)
             dy += ys
-        if n_nan and rng.random() < 0.8:
-            ysn = targets(n_nan, rng.random())
+        if n_nan and (kind == "dev_nan_shift" or rng.random() < 0.8):
+            ysn = targets(n_nan, (1 - nan_base) if kind == "dev_nan_shift" else rng.random())
             dcol += [NAN] * len(ysn)
             dy += ysn
         if carver == "binary" and (sum(dy) == 0 or sum(dy) == len(dy)) and dy:
